@@ -421,6 +421,10 @@ def stratum_handshakes(ctx, n, time_cap):
         if time.time() > end:
             ctx.count("handshake_stratum_time_capped")
             break
+        if ctx.violations and i >= 3:
+            # already refuted in this shard; peers that disagree can only time out on each other
+            ctx.count("handshake_stratum_cut_short_after_violation")
+            break
         tame = rng.random() < 0.9
         cc, sc = Cfg(rng, "client", tame), Cfg(rng, "server", tame)
         # keep the sample affordable: group16 and 3des are slow, keep them rare but present
@@ -432,19 +436,31 @@ def stratum_handshakes(ctx, n, time_cap):
                 setattr(t, "_preferred_" + kind, tuple(names))
         p.ts._modulus_pack = kexbench.modulus_pack() if sc.pack else None
         for t in (p.tc, p.ts):  # loaded box: paramiko's own 15 s limits are not under test
-            t.banner_timeout = t.handshake_timeout = 120
+            t.banner_timeout = t.handshake_timeout = 60
         logs = {"c": [], "s": []}
         for side, t, role in (("c", p.tc, "client"), ("s", p.ts, "server")):
             hook_parse(t, role, logs[side])
         try:
-            completed = p.start(timeout=150)
+            completed = p.start(timeout=90)
             rekeyed = False
             if completed and rng.random() < 0.25:
-                try:
-                    p.tc.renegotiate_keys()
+                # renegotiate_keys() has no timeout of its own; peers that (wrongly) disagree on a MAC
+                # length would sit there forever, so it runs in a helper thread
+                import threading
+
+                def rekey():
+                    try:
+                        p.tc.renegotiate_keys()
+                    except Exception:
+                        ctx.count("rekey_failed")
+
+                th = threading.Thread(target=rekey, daemon=True)
+                th.start()
+                th.join(90)
+                if th.is_alive():
+                    ctx.count("rekey_not_finished")
+                else:
                     rekeyed = vpair.wait_for(lambda: len(logs["s"]) >= 2 and len(logs["c"]) >= 2, 20)
-                except Exception:
-                    ctx.count("rekey_failed")
             else:
                 # both sides have at least tried to parse the peer's KEXINIT, or are dead
                 vpair.wait_for(lambda: all(logs[s] or not t.is_active() for s, t in (("c", p.tc), ("s", p.ts))), 10)
